@@ -3,7 +3,7 @@
    never be dropped; Rust drops whatever is owned on every `?`, so the ghost can only grow at the sites of the
    regenerated unsafe inventory of the templates -- there is exactly one, the sync list arm
    (Vec::with_capacity; ptr.offset(i).write(elem?); set_len after the loop).  Statements only; lemmas in
-   Proofs/OwnP.v.  [own_decode md S p fuel t s] : (outcome, leaked); md = MSync / MAsync are the two template
+   Proofs/OwnP.v.  [own_decode md A S p fuel t s] : (outcome, leaked); md = MSync / MAsync are the two template
    instances (decode / decode_async); p ranges over binary, binary-LE, compact; the input state [s] ranges over
    ALL byte strings (every truncation and every corruption is an instance) and all reader contexts. *)
 From PV Require Import Thrift.AppMsg.
@@ -18,38 +18,38 @@ Proof. exact inventory_accounted. Qed.
 Print Assumptions C19_inventory.
 
 (* erasing the ghost gives back the emitted decoders (so the outcomes below are those of C02 / C09 / C12) *)
-Theorem C19_erase_sync : forall S p f t s, fst (own_decode MSync S p f t s) = gen_decode S p f t s.
+Theorem C19_erase_sync : forall A S p f t s, fst (own_decode MSync A S p f t s) = gen_decode S p f t s.
 Proof. exact own_proj_sync. Qed.
 Print Assumptions C19_erase_sync.
 
-Theorem C19_erase_async : forall S p f t s, fst (own_decode MAsync S p f t s) = gen_decode_async S p f t s.
+Theorem C19_erase_async : forall A S p f t s, fst (own_decode MAsync A S p f t s) = gen_decode_async S p f t s.
 Proof. exact own_proj_async. Qed.
 Print Assumptions C19_erase_async.
 
 (* a decode that succeeds leaks nothing (the value owns everything that was built) *)
-Theorem C19_ok_no_leak : forall md S p f t s x,
-  fst (own_decode md S p f t s) = Ok x -> snd (own_decode md S p f t s) = [].
+Theorem C19_ok_no_leak : forall md A S p f t s x,
+  fst (own_decode md A S p f t s) = Ok x -> snd (own_decode md A S p f t s) = [].
 Proof. exact own_ok_no_leak. Qed.
 Print Assumptions C19_ok_no_leak.
 
-(* FULL STATEMENT (refuted below):  forall S t p f s, failed (fst (own_decode MSync S p f t s)) ->
-                                     snd (own_decode MSync S p f t s) = [].
+(* FULL STATEMENT (refuted below):  forall S t p f s, failed (fst (own_decode MSync A S p f t s)) ->
+                                     snd (own_decode MSync A S p f t s) = [].
    Proved part: every schema and type from which no list with a Drop-needing element type can be reached
    (no_heap_list: string, binary, containers, structs / unions holding them, recursive types); every protocol,
    every input, every reader context, every fuel -- failing or not, nothing is leaked.  What is missing is exactly
    the class of finding F-19a. *)
-Theorem C19_no_leak_partial : forall S t, no_heap_list S t ->
-  forall p f s, snd (own_decode MSync S p f t s) = [].
+Theorem C19_no_leak_partial : forall A S t, no_heap_list A S t ->
+  forall p f s, snd (own_decode MSync A S p f t s) = [].
 Proof. exact no_leak_partial. Qed.
 Print Assumptions C19_no_leak_partial.
 
 (* decidable form of the hypothesis *)
-Theorem C19_no_heap_list_decidable : forall S t, no_heap_list_b S t = true -> no_heap_list S t.
+Theorem C19_no_heap_list_decidable : forall A S t, no_heap_list_b A S t = true -> no_heap_list A S t.
 Proof. exact no_heap_list_b_sound. Qed.
 Print Assumptions C19_no_heap_list_decidable.
 
 (* the async decoders (val.push(elem?)) never leak: every schema, type, protocol, input *)
-Theorem C19_no_leak_async : forall S t p f s, snd (own_decode MAsync S p f t s) = [].
+Theorem C19_no_leak_async : forall A S t p f s, snd (own_decode MAsync A S p f t s) = [].
 Proof. exact no_leak_async. Qed.
 Print Assumptions C19_no_leak_async.
 
@@ -57,53 +57,64 @@ Print Assumptions C19_no_leak_async.
    encoding of names = ["a"; "bbbbb"] cut inside the second string fails with an error and "a" (a slice of the
    input buffer in the real code) is never dropped -- finding F-19a *)
 Theorem C19_list_leak_refuted :
-  exists S t p l e, wf_schema S = true /\ fst (own_decode_top MSync S p t l) = Err e /\ e <> EOutOfFuel /\
-                    snd (own_decode_top MSync S p t l) <> [].
+  exists S t p l e, wf_schema S = true /\ fst (own_decode_top MSync [] S p t l) = Err e /\ e <> EOutOfFuel /\
+                    snd (own_decode_top MSync [] S p t l) <> [].
 Proof. exact list_leak_refuted. Qed.
 Print Assumptions C19_list_leak_refuted.
 
 (* what exactly is leaked by a failing sync list decode: either the list header was rejected (nothing), or the
    elements xs decoded before the failing one -- iff their type needs Drop -- after whatever the failing element
    leaked itself *)
-Theorem C19_leak_exact : forall S p f t et s,
+Theorem C19_leak_exact : forall A S p f t et s,
   resolve S t = TyList et -> (blen s < Datatypes.S f)%nat ->
-  failed (fst (own_decode MSync S p (Datatypes.S f) t s)) ->
-  (failed (r_coll_begin p s) /\ snd (own_decode MSync S p (Datatypes.S f) t s) = []) \/
+  failed (fst (own_decode MSync A S p (Datatypes.S f) t s)) ->
+  (failed (r_coll_begin p s) /\ snd (own_decode MSync A S p (Datatypes.S f) t s) = []) \/
   exists h s0 xs sk,
     r_coll_begin p s = Ok (h, s0) /\ decodes_seq (gen_decode S p f) et s0 xs sk /\
     Z.of_nat (length xs) < snd h /\ failed (gen_decode S p f et sk) /\
-    snd (own_decode MSync S p (Datatypes.S f) t s) =
-      snd (own_decode MSync S p f et sk) ++ (if owns_heap S et then xs else []).
+    snd (own_decode MSync A S p (Datatypes.S f) t s) =
+      snd (own_decode MSync A S p f et sk) ++ (if owns_heap A S et then xs else []).
 Proof. exact list_leak_exact. Qed.
 Print Assumptions C19_leak_exact.
 
 (* innermost failing list: the leak is exactly the decoded prefix *)
-Theorem C19_leak_exact_flat : forall S p f t et s,
-  resolve S t = TyList et -> (blen s < Datatypes.S f)%nat -> owns_heap S et = true -> no_heap_list S et ->
-  failed (fst (own_decode MSync S p (Datatypes.S f) t s)) ->
-  (failed (r_coll_begin p s) /\ snd (own_decode MSync S p (Datatypes.S f) t s) = []) \/
+Theorem C19_leak_exact_flat : forall A S p f t et s,
+  resolve S t = TyList et -> (blen s < Datatypes.S f)%nat -> owns_heap A S et = true -> no_heap_list A S et ->
+  failed (fst (own_decode MSync A S p (Datatypes.S f) t s)) ->
+  (failed (r_coll_begin p s) /\ snd (own_decode MSync A S p (Datatypes.S f) t s) = []) \/
   exists h s0 xs sk,
     r_coll_begin p s = Ok (h, s0) /\ decodes_seq (gen_decode S p f) et s0 xs sk /\
     Z.of_nat (length xs) < snd h /\ failed (gen_decode S p f et sk) /\
-    snd (own_decode MSync S p (Datatypes.S f) t s) = xs.
+    snd (own_decode MSync A S p (Datatypes.S f) t s) = xs.
 Proof. exact list_leak_exact_flat. Qed.
 Print Assumptions C19_leak_exact_flat.
 
 (* ---------- builds with keep_unknown_fields: the sync templates with retention (GenKeep.gen_decode_keep) ---------- *)
+(* Arc-wrapped members (pilota.rust_wrapper_arc): [A] lists the schema indices that stand for an `Arc<..>` box; owns_heap counts a
+   box as an allocation whatever it wraps.  The marking matters: the same schema with A = [] puts list<ArcEl> in the no-leak
+   class, and the emitted code leaks there (corpus document `arcl`) *)
+Theorem C19_arc_member_leak :
+  owns_heap [] arc_schema (TyRef 1) = false /\ owns_heap [2%nat] arc_schema (TyRef 1) = true /\
+  no_heap_list_b [2%nat] arc_schema (TyList (TyRef 1)) = false /\
+  (exists e x, own_decode_top MSync [2%nat] arc_schema PBinary (TyList (TyRef 1)) arc_input = (Err e, [x])) /\
+  snd (own_decode_top MSync [] arc_schema PBinary (TyList (TyRef 1)) arc_input) = [].
+Proof. exact arc_member_leak. Qed.
+Print Assumptions C19_arc_member_leak.
+
 (* `_unknown_fields`, the retained chunks and the `_UnknownFields` variant are owned: the only leaking clause is again
    the list arm; what changes is the set of element types that need Drop (every struct / union compiled with
    retention holds a LinkedBytes): owns_heap_keep, no_heap_list_keep *)
-Theorem C19_erase_keep : forall S p f t s, fst (own_decode_keep S p f t s) = gen_decode_keep S p f t s.
+Theorem C19_erase_keep : forall A S p f t s, fst (own_decode_keep A S p f t s) = gen_decode_keep S p f t s.
 Proof. exact own_proj_keep. Qed.
 Print Assumptions C19_erase_keep.
 
-Theorem C19_no_leak_keep_partial : forall S t, no_heap_list_keep S t ->
-  forall p f s, snd (own_decode_keep S p f t s) = [].
+Theorem C19_no_leak_keep_partial : forall A S t, no_heap_list_keep A S t ->
+  forall p f s, snd (own_decode_keep A S p f t s) = [].
 Proof. exact no_leak_keep_partial. Qed.
 Print Assumptions C19_no_leak_keep_partial.
 
 (* ---------- the message level: read_message_begin, body, read_message_end on one protocol object ---------- *)
-(* own_message md kb S p fuel b s : the envelope (PV.Thrift.Msg.r_message_begin / AppMsg.a_message_begin), then the body
+(* own_message md kb A S p fuel b s : the envelope (PV.Thrift.Msg.r_message_begin / AppMsg.a_message_begin), then the body
    -- an emitted type [BType t] (decode, decode of a keep build [kb], decode_async) or the runtime's
    ApplicationException [BAppEx] -- with the ledger: [mo_ident] what the identifier owns while it lives (a slice of the
    input for names beyond FastStr's inline capacity read by the in-memory readers, a heap string from the async readers),
@@ -121,8 +132,8 @@ Proof. exact (conj retention_inventory_accounted (conj retention_inventory_justi
 Print Assumptions C19_retention_inventory.
 
 (* whatever the envelope and the body do, on every input: nothing the identifier held survives it *)
-Theorem C19_message_ident_released : forall md kb S p fuel b s,
-  mo_retained (own_message md kb S p fuel b s) = [].
+Theorem C19_message_ident_released : forall md kb A S p fuel b s,
+  mo_retained (own_message md kb A S p fuel b s) = [].
 Proof. exact message_ident_released. Qed.
 Print Assumptions C19_message_ident_released.
 
@@ -131,27 +142,27 @@ Print Assumptions C19_message_ident_released.
    sync decoders of types from which no list with a Drop-needing element type is reachable), every protocol, every
    input (all truncations and corruptions of envelope and body), every reader context.  Missing: the class of F-19a,
    where the body decoder itself leaks (C19_message_leak_is_body_leak: exactly what C19_leak_exact describes). *)
-Theorem C19_message_no_leak_partial : forall md kb S p fuel b s, body_no_heap_list md kb S b ->
-  mo_leaked (own_message md kb S p fuel b s) = [] /\ mo_retained (own_message md kb S p fuel b s) = [].
+Theorem C19_message_no_leak_partial : forall md kb A S p fuel b s, body_no_heap_list md kb A S b ->
+  mo_leaked (own_message md kb A S p fuel b s) = [] /\ mo_retained (own_message md kb A S p fuel b s) = [].
 Proof. exact message_no_leak_partial. Qed.
 Print Assumptions C19_message_no_leak_partial.
 
-Theorem C19_message_leak_is_body_leak : forall md kb S p fuel b s id s1,
+Theorem C19_message_leak_is_body_leak : forall md kb A S p fuel b s id s1,
   m_message_begin md p s = Ok (id, s1) ->
-  mo_leaked (own_message md kb S p fuel b s) = snd (own_body md kb S p fuel b s1) /\
-  mo_ident (own_message md kb S p fuel b s) = name_holds md (m_name id).
+  mo_leaked (own_message md kb A S p fuel b s) = snd (own_body md kb A S p fuel b s1) /\
+  mo_ident (own_message md kb A S p fuel b s) = name_holds md (m_name id).
 Proof. exact message_leak_is_body_leak. Qed.
 Print Assumptions C19_message_leak_is_body_leak.
 
 (* erasing the ghosts gives read_message_begin followed by the emitted decoder *)
-Theorem C19_message_erase_sync : forall S p fuel t s,
-  mo_outcome (own_message MSync false S p fuel (BType t) s) =
+Theorem C19_message_erase_sync : forall A S p fuel t s,
+  mo_outcome (own_message MSync false A S p fuel (BType t) s) =
   (let* (id, s1) := r_message_begin p s in let* (v, s2) := gen_decode S p fuel t s1 in Ok (id, v, s2)).
 Proof. exact message_erase_sync. Qed.
 Print Assumptions C19_message_erase_sync.
 
-Theorem C19_message_erase_async : forall S kb p fuel t s,
-  mo_outcome (own_message MAsync kb S p fuel (BType t) s) =
+Theorem C19_message_erase_async : forall A S kb p fuel t s,
+  mo_outcome (own_message MAsync kb A S p fuel (BType t) s) =
   (let* (id, s1) := a_message_begin p s in let* (v, s2) := gen_decode_async S p fuel t s1 in Ok (id, v, s2)).
 Proof. exact message_erase_async. Qed.
 Print Assumptions C19_message_erase_async.
